@@ -262,6 +262,37 @@ pub fn run(o: &Opts) -> i32 {
             }
         }
     }
+    // INSERTION of foreign characters (line breaks as MIME folding puts them, blanks, URL-safe alphabet characters) at every
+    // position of texts long enough to contain several 76-character lines
+    let nins = o.num("insert", 0);
+    for k in 0..nins {
+        let len = [57usize, 58, 114, 171, 60, 230][k as usize % 6];
+        let input: Vec<u8> = (0..len).map(|_| rng.gen()).collect();
+        let (_, text) = enc_event(&input);
+        if let Some(t) = text {
+            let tb = t.as_bytes();
+            for ins in ["\n", "\r\n", " ", "\t", "-", "_", "\r"] {
+                for pos in 0..=tb.len() {
+                    let m = [&tb[..pos], ins.as_bytes(), &tb[pos..]].concat();
+                    let ev = dec_event(&m);
+                    if !ev.is_null() {
+                        out.emit(&ev);
+                    }
+                }
+                // folded the MIME way: the separator after every 76 characters
+                let mut folded: Vec<u8> = vec![];
+                for (i, c) in tb.iter().enumerate() {
+                    if i > 0 && i % 76 == 0 {
+                        folded.extend_from_slice(ins.as_bytes());
+                    }
+                    folded.push(*c);
+                }
+                if folded.len() > tb.len() {
+                    out.emit(&dec_event(&folded));
+                }
+            }
+        }
+    }
     let n = out.n;
     out.finish();
     eprintln!("base64: {} events", n);
